@@ -119,5 +119,81 @@ let run_case line =
       print_endline (Buffer.contents out)
   | _ -> print_endline ("? " ^ line)
 
+(* ------------------------------------------------------------------------------------------------
+   T lines: the pair gids.c + timer.c (GidsTimerModel), format of harness/gids_timer_harness.c *)
+let parse_act universe a =
+  match a.[0] with
+  | 'G' -> ADb (parse_db (tail a))
+  | 'P' -> APw (pw_of_list (parse_pw (tail a)))
+  | 'M' -> AMtime (if a = "M!" then None else Some (z_of_int (int_of_string (tail a))))
+  | 'S' -> ASighup
+  | 'c' | 't' -> AClock (z_of_int (int_of_string (tail a)))
+  | 'A' -> ALookups universe
+  | _ -> failwith ("act " ^ a)
+
+let run_pair line =
+  match split_on ' ' line with
+  | _ :: i :: u :: ops ->
+      let (interval, dostat) = Scanf.sscanf i "I%d,%d" (fun a b -> (a, b)) in
+      let (us, gs) =
+        match split_on '|' (tail u) with
+        | [a; b] -> (nums a, nums b)
+        | [a] -> (nums a, [])
+        | _ -> ([], []) in
+      let universe = List.concat_map (fun uu -> List.map (fun gg -> (n_of_int uu, n_of_int gg)) gs) us in
+      let nuni = List.length universe in
+      let out = Buffer.create 256 in
+      let emit s = if Buffer.length out > 0 then Buffer.add_char out ' '; Buffer.add_string out s in
+      let bits = Buffer.create 64 in
+      let flush_bits () =
+        if Buffer.length bits > 0 then (emit ("a" ^ Buffer.contents bits); Buffer.clear bits) in
+      let emit_ev = function
+        | EAns (_, _, b) ->
+            Buffer.add_char bits (if b then '1' else '0');
+            if Buffer.length bits = nuni then flush_bits ()
+        | ev ->
+            flush_bits ();
+            (match ev with
+             | ESet (id, now, ms) -> emit (Printf.sprintf "s%d@%d+%d" (int_of_z id) (int_of_z now) (int_of_z ms))
+             | ECancel (id, ok) -> emit (Printf.sprintf "c%d=%d" (int_of_z id) (if ok then 1 else 0))
+             | EFire (id, now) -> emit (Printf.sprintf "f%d@%d" (int_of_z id) (int_of_z now))
+             | EReturn (sc, at) -> emit (Printf.sprintf "r%d%d" (if sc then 1 else 0) (if at then 1 else 0))
+             | EMark c -> emit (match int_of_nat c with 0 -> "hT" | 1 -> "hG" | _ -> "hE")
+             | EStuck -> emit "!stuck"
+             | EAns _ -> ()) in
+      let hooks : (int * hook) list ref = ref [] in
+      let hookf n = match List.assoc_opt (int_of_nat n) !hooks with Some h -> h | None -> no_hook in
+      let w0 = { w_db = []; w_pw = pw_of_list []; w_mtime = Some Z0 } in
+      let (s0, ev0) = gt_create (z_of_int interval) (z_of_int dostat) w0 in
+      let st = ref s0 and nref = ref O in
+      List.iter emit_ev ev0;
+      let passive a = let (s1, _) = do_act VRepo !st a in st := s1 in
+      let active a =
+        let ((s1, n1), evs) = drive1 VRepo hookf (nat_of_int 1000) !st !nref a in
+        st := s1; nref := n1; List.iter emit_ev evs; flush_bits (); emit "|" in
+      List.iter (fun op ->
+          if op <> "" then
+          match op.[0] with
+          | 'G' | 'P' | 'M' -> passive (parse_act universe op)
+          | 'H' ->
+              (match String.split_on_char '/' (tail op) with
+               | [j; t; g; e; f] ->
+                   let acts x = List.map (parse_act universe) (split_on '+' x) in
+                   let h = { h_t = acts t; h_g = acts g; h_e = acts e;
+                             h_sched = (if f = "" then [] else parse_sched f) } in
+                   hooks := (int_of_nat !nref + int_of_string j, h) :: !hooks
+               | _ -> emit ("?" ^ op))
+          | 't' | 'S' | 'A' -> active (parse_act universe op)
+          | _ -> emit ("?" ^ op))
+        ops;
+      (match gt_destroy !st with
+       | None -> emit "d-"
+       | Some (id, ok) -> emit (Printf.sprintf "d%d=%d" (int_of_z id) (if ok then 1 else 0)));
+      emit ".";
+      print_endline (Buffer.contents out)
+  | _ -> print_endline ("? " ^ line)
+
+let run_any line = if String.length line > 1 && line.[0] = 'T' && line.[1] = ' ' then run_pair line else run_case line
+
 let () =
-  try while true do run_case (input_line stdin) done with End_of_file -> ()
+  try while true do run_any (input_line stdin) done with End_of_file -> ()
